@@ -139,6 +139,11 @@ def _format(fmt, args, node):
 
 def _join(sep, arg, env):
     """sep.join(<list expr>): list literal (+ list var)*"""
+    # every element written with str(): map(str, L) / (str(x) for x in L) is L for the purpose of the template
+    if isinstance(arg, ast.Call) and isinstance(arg.func, ast.Name) and arg.func.id == "map" and len(arg.args) == 2 and norm(arg.args[0]) == "str":
+        arg = arg.args[1]
+    elif isinstance(arg, (ast.GeneratorExp, ast.ListComp)) and len(arg.generators) == 1 and not arg.generators[0].ifs and isinstance(arg.generators[0].target, ast.Name) and norm(arg.elt) == f"str({arg.generators[0].target.id})" and isinstance(arg.generators[0].iter, ast.Name) and arg.generators[0].iter.id in env and env[arg.generators[0].iter.id] and env[arg.generators[0].iter.id][0][0] == "listvar":
+        arg = arg.generators[0].iter
     if isinstance(arg, ast.Name) and arg.id in env and env[arg.id] and env[arg.id][0][0] == "listvar":
         return join_entries(sep, env[arg.id][0][1], arg)
     if isinstance(arg, (ast.GeneratorExp, ast.ListComp)) and len(arg.generators) == 1 and not arg.generators[0].ifs and isinstance(arg.generators[0].target, ast.Name):
@@ -351,6 +356,10 @@ class Builder:
                 else:
                     ents = self._list_entries(st.value.args[0])
                     cur[0][1].extend(ents if ents is not None else [("rep", [("opaque", st.value.args[0])], None)])
+        elif isinstance(st, ast.AugAssign) and isinstance(st.op, ast.Add) and isinstance(st.target, ast.Name) and st.target.id in self.track and self.env.get(st.target.id) and self.env[st.target.id][0][0] == "listvar":
+            # L += [items] / L += [comprehension]: like extend
+            ents = self._list_entries(st.value)
+            self.env[st.target.id][0][1].extend(ents if ents is not None else [("rep", [("opaque", st.value)], None)])
         elif isinstance(st, ast.AugAssign) and isinstance(st.op, ast.Add) and isinstance(st.target, ast.Name):
             v = st.target.id
             if v in self.track:
